@@ -17,7 +17,7 @@ RULE = ("(1) every runtime block of ET/DT/ES (both Modbus framings; ES blocks of
         "style / field index, outcome class) tuples")
 ASSUMPTIONS = ["DT.read_settings_data() is outside the property's wording (it names ET and ES for the bulk settings read)",
                "a key may map to None; the key set must contain every id of the covered sensors/settings"]
-MUST = ["undecodable_value_read_twice", "stateful_decode_compared", "settings_registers_refused", "single_reads_after_capability_change", "blocks_decoded", "none_values_seen", "valueerror_paths_seen", "field_sweeps", "end_to_end_runtime",
+MUST = ["settings_none_pattern_checked", "undecodable_value_read_twice", "stateful_decode_compared", "settings_registers_refused", "single_reads_after_capability_change", "blocks_decoded", "none_values_seen", "valueerror_paths_seen", "field_sweeps", "end_to_end_runtime",
         "end_to_end_settings", "single_reads", "es_short_blocks"]
 EXHAUSTIVE = {"quick": False, "thorough": True}
 
@@ -194,6 +194,29 @@ def e2e_part(spec, part):
                 out["st"] = await inv.read_settings_data()
                 out["st_ids"] = {s.id_ for s in inv.settings()} | set(out["st"])
                 part.count("end_to_end_settings")
+                # what each setting's own registers decode to on their own (a copy of the setting object, nothing read before it)
+                import copy
+                PRr = g.protocol.ProtocolResponse
+                exp = {}
+                for st_ in inv.settings():
+                    if st_.id_ not in out["st"] or getattr(st_, "size_", 0) <= 0:
+                        continue
+                    if fam == "ET":
+                        own = sim.get_bytes(st_.offset, (st_.size_ + 1) // 2)
+                        own = own[:st_.size_] if type(st_).__name__ != "ByteL" else own     # (ByteL skips the high byte itself)
+                    elif st_.offset < 1000:
+                        own = bytes(sim.settings[st_.offset:st_.offset + st_.size_])
+                        if len(own) < st_.size_:
+                            continue
+                    else:
+                        continue
+                    try:
+                        exp[st_.id_] = "value" if copy.copy(st_).read_value(PRr(own, None)) is not None else "none-or-value"
+                    except ValueError:
+                        exp[st_.id_] = "undecodable"
+                    except Exception:       # noqa  (the field sweeps report those)
+                        pass
+                out["st_expect"] = exp
                 again = await inv.read_settings_data()      # unchanged registers: same keys, same None pattern
                 # (a setting the inverter refused with ILLEGAL DATA ADDRESS is dropped from settings() after the first read: documented)
                 out["st_changed"] = sorted(k for k in out["st"] if k in again and (out["st"][k] is None) != (again[k] is None))
@@ -247,6 +270,15 @@ def e2e_part(spec, part):
         if out.get("st_changed"):
             part.violate("C11/e2e/undecodable-setting-reported-on-second-read",
                          f"{fam}: settings {out['st_changed'][:4]} switched between None and a value on a second read_settings_data() of the same registers", case)
+        for sid, what in out.get("st_expect", {}).items():
+            got = out["st"].get(sid)
+            part.count("settings_none_pattern_checked")
+            if what == "undecodable" and got is not None:
+                part.violate("C11/e2e/undecodable-setting-not-none",
+                             f"{fam}: the registers of setting {sid!r} cannot be interpreted, yet read_settings_data() reports {str(got)[:60]!r} for it", case)
+            elif what == "value" and got is None:
+                part.violate("C11/e2e/decodable-setting-reported-none",
+                             f"{fam}: the registers of setting {sid!r} decode to a value, yet read_settings_data() reports None", case)
         if "st" in out:
             miss = out["st_ids"] - set(out["st"])
             if miss:
